@@ -787,6 +787,43 @@ def d8(ctx, prog):
     return n
 
 
+def d12(ctx, prog):
+    """an optional frame is recognised by `is None`: a truthiness test (`frame_1 or frame_2`, `if frame:`, `not frame`, `x if frame else y`)
+    treats the valid single-point frame 0 (and an empty selection) as missing and raises on an index array"""
+    n = 0
+
+    def is_frame(e):
+        if isinstance(e, ast.Name):
+            return e.id.startswith('frame')
+        if isinstance(e, ast.Attribute) and isinstance(e.value, ast.Name) and e.value.id == 'self':
+            return e.attr.startswith('frame')
+        return False
+    for modname in MODS:
+        for f in prog.funcs_in(modname):
+            hits = []
+            for node in ast.walk(f.node):
+                tests = []
+                if isinstance(node, ast.BoolOp):
+                    tests = list(node.values)
+                elif isinstance(node, (ast.If, ast.IfExp, ast.While)):
+                    tests = [node.test]
+                elif isinstance(node, ast.UnaryOp) and isinstance(node.op, ast.Not):
+                    tests = [node.operand]
+                for t in tests:
+                    while isinstance(t, ast.UnaryOp) and isinstance(t.op, ast.Not):
+                        t = t.operand
+                    if is_frame(t):
+                        hits.append((node, t))
+            frames_used = any(is_frame(x) for x in ast.walk(f.node))
+            if not frames_used:
+                continue
+            n += 1
+            key = f'{f.key}::frame tests'
+            ctx.check(not hits, 'C18-D12', key, f'`{norm(hits[0][0])[:70] if hits else ""}` tests the truth value of the frame `{norm(hits[0][1]) if hits else ""}`: the single-point frame 0 counts as missing '
+                      '(it is replaced by the other frame or by the whole trace) and an index array raises "truth value of an array is ambiguous"', 'frames are recognised as missing by `is None` only', f.where(hits[0][0]) if hits else f.where())
+    return n
+
+
 def d10(ctx, prog, eps):
     """alias classes (E2): the value returned by __call__ must not share storage with an instance attribute that the same call path
     also writes in place"""
@@ -840,6 +877,8 @@ def run(ctx, prog):
     ctx.rule('C18-D8', 'pair enumeration on symbolic traces: each combination class lists exactly the documented pairs in the documented order, row by row')
     ctx.floor('pair enumeration cases', d8(ctx, prog), 5)
     ctx.rule('C18-D7', 'operand order: the combination operation receives (point of frame_1, point of frame_2) in every mode')
+    ctx.rule('C18-D12', 'an optional frame is recognised by `is None`, never by its truth value (the frame 0 is a valid single point, an index array has no truth value)')
+    ctx.floor('functions handling frames', d12(ctx, prog), 5)
     ctx.rule('C18-D10', 'what a preprocess returns is not storage it keeps on the object and writes again in a later call (a result buffer reused between batches makes the rows returned for one batch change when the next is processed)')
     ctx.floor('preprocess calls judged for returned storage', d10(ctx, prog, eps), 4)
     ctx.floor('combination operation call sites', d7(ctx, prog), 3)
